@@ -294,6 +294,40 @@ func runC02R2(c *eng.Ctx, r *eng.RuleCtx) {
 		} else if okStage {
 			okCopy = true // stored directly into the cache
 		}
+		if !okCopy && staged != nil {
+			// the library form: maps.Copy(ei.cachedObjects, staged) on every path to a normal return
+			isCopy := func(m *eng.GNode) bool {
+				return len(g.CallsAt(m, func(o types.Object, call *ast.CallExpr) bool {
+					return eng.IsPkgFunc(o, "maps", "Copy") && len(call.Args) == 2 && eng.IsField(info, call.Args[0], cached) && eng.SelObj(info, call.Args[1]) == staged
+				})) > 0
+			}
+			hasCopy := false
+			for _, m := range g.Nodes {
+				if isCopy(m) {
+					hasCopy = true
+				}
+			}
+			if hasCopy && loop != nil {
+				okCopy = true
+				// once the staging loop is done, every return of a nil error passes the copy
+				var done []*eng.GNode
+				for _, m := range g.Nodes {
+					if m.Node == nil && m.Block.Stmt == loop {
+						if k := m.Block.Kind.String(); k == "RangeDone" || k == "ForDone" {
+							done = append(done, m)
+						}
+					}
+				}
+				if len(done) == 0 {
+					okCopy = false
+				}
+				for m := range g.Reach(eng.Query{From: done, AvoidNode: isCopy}) {
+					if ret, isR := eng.IsReturn(m); isR && len(ret.Results) > 0 && eng.IsNil(info, ret.Results[len(ret.Results)-1]) {
+						okCopy = false
+					}
+				}
+			}
+		}
 		r.Check(okCopy, f.Key+" copies-all-staged", f.Decl.Pos(), "every staged entry is copied into cachedObjects", "staged objects are not all copied into the cache")
 	}
 	if f := r.NeedFunc(pkgKem + ".(*resourceInformer).handleWatchEvent"); f != nil {
